@@ -49,6 +49,17 @@ fn make_sandbox() -> PathBuf {
     dir
 }
 
+/// abandoned run threads keep their files open
+fn raise_fd_limit() {
+    unsafe {
+        let mut rl: libc::rlimit = std::mem::zeroed();
+        if libc::getrlimit(libc::RLIMIT_NOFILE, &mut rl) == 0 && rl.rlim_cur < rl.rlim_max {
+            rl.rlim_cur = rl.rlim_max.min(1 << 20);
+            libc::setrlimit(libc::RLIMIT_NOFILE, &rl);
+        }
+    }
+}
+
 fn make_sandbox_n(n: u32) -> PathBuf {
     let base = if std::path::Path::new("/dev/shm").is_dir() { PathBuf::from("/dev/shm") } else { std::env::temp_dir() };
     let dir = base.join(format!("bitasim.{}.{}", std::process::id(), n));
@@ -96,6 +107,9 @@ fn main() {
     // like every later one
     let _ = num_cpus_warmup();
     harness::install_panic_hook();
+    harness::install_context_hooks();
+    harness::install_need_threads_hook();
+    raise_fd_limit();
     // diagnostic overrides, never set by ./check
     if let Some(v) = std::env::var("BITASIM_STEP_BUDGET").ok().and_then(|v| v.parse::<u64>().ok()) {
         simkit::DEFAULT_STEP_BUDGET.store(v, std::sync::atomic::Ordering::Relaxed);
